@@ -51,7 +51,7 @@ TablesMatch ==
   /\ HashesGroup
   /\ \A o \in ObsVols : o.pos /\ (o.name \in TrResnames \/ \E p \in HMap : p[1] = o.name)        \* every size positive, every entry explained
   /\ \A o \in ObsTmpl : \E p \in HMap : p[1] = o.name
-  /\ (Ev.op \in {"V", "T"}) => \A rn \in TrResnames : vols'[rn] = VolOf(rn)      \* entries by residue name are internal once the file has ended
+  /\ \A rn \in TrResnames : vols'[rn] = VolOf(rn)
   /\ \A k \in TrKeys : IF HashesOf(k) = {} THEN vols'[k] = NoVal /\ tmpl'[k].src = "none"
                        ELSE \A h \in HashesOf(k) : vols'[k] = VolOf(h) /\ tmpl'[k].src = TmplOf(h)
 Keep == tid' = tid /\ l' = l + 1
